@@ -205,6 +205,11 @@ def make_sessions(ctx, n, heat):
             m = ctx.rng.randint(3, 9)
             sa = nc.repertoire(ctx.rng, m, maxmut=2, maxlen=9, families=2, short=0)
             sb = nc.repertoire(ctx.rng, m, maxmut=2, maxlen=9, families=2, short=0)
+            if sid % 2:
+                # two-letter chains of mixed lengths: an alignment of "alpha_beta" strings across the separator is often cheaper than
+                # the two chains aligned separately, so distances of concatenated chains differ from the summed chain distances
+                sa = ["".join(ctx.rng.choice("AC") for _ in range(ctx.rng.randint(2, 7))) for _ in range(m)]
+                sb = ["".join(ctx.rng.choice("AC") for _ in range(ctx.rng.randint(2, 7))) for _ in range(m)]
             single = sid % 6 == 2
             df = pd.DataFrame(dict(cdr3a=sa, cdr3b=sb, donor=[f"d{i % 2}" for i in range(m)]), index=[f"cell{i}" for i in range(m)][::-1])
             vec = [nc._lev(sa[i], sa[j]) + (0 if single else nc._lev(sb[i], sb[j])) for i in range(m) for j in range(i + 1, m)]
